@@ -30,7 +30,6 @@ from typing import (
     Iterable,
     Sequence,
     List,
-    Set,
     NamedTuple,
     cast,
 )
@@ -2394,9 +2393,12 @@ def _get_ptrref_descendants(
     ):
         include_descendants = False
 
-        descendants: list[irast.PointerRef] = []
-        descendants.extend(
-            cast(Iterable[irast.PointerRef], ptrref.descendants())
+        # descendants() is a set of identity-hashed refs: sort it so that
+        # the order of the UNION branches (and with it the SQL text) is the
+        # same for every compilation of the same query.
+        descendants: list[irast.PointerRef] = sorted(
+            cast(Iterable[irast.PointerRef], ptrref.descendants()),
+            key=lambda ref: str(ref.id),
         )
         descendants.append(ptrref)
         assert isinstance(ptrref, irast.PointerRef)
